@@ -2,9 +2,9 @@
 (* E1 + E2 for C15: TLC enumerates every valid change set D of at most MaxEdits atoms and every selection S of the
    offered units (hunk-granular), checks the laws and the algebra of the model on every case (one initial state per
    case), and exports the case table with the expected projections. *)
-EXTENDS Shelf, Json, IOUtils
+EXTENDS Shelf, Json, IOUtils, FiniteSetsExt
 CONSTANTS MaxEdits
-Deltas == {D \in SUBSET AllAtoms : Cardinality(D) <= MaxEdits /\ D # {} /\ Valid(D)}
+Deltas == {D \in UNION {kSubset(k, AllAtoms) : k \in 1..MaxEdits} : Valid(D)}
 Case(D, S) == [D |-> SetToSeq(D), S |-> SetToSeq(S)]
 CaseSet == UNION {{Case(D, S) : S \in SUBSET Units(D)} : D \in Deltas}
 VARIABLE c
@@ -26,7 +26,7 @@ LawsHoldOnSpec ==
 WitnessOneHunkOfTwo == ~(At("a", "modA") \in S_(c) /\ At("a", "modB") \in D_(c) /\ At("a", "modB") \notin S_(c))
 WitnessRenameKeptEditShelved == ~(At("a", "ren") \in Kept(D_(c), S_(c)) /\ At("a", "modA") \in Shelved(D_(c), S_(c)))
 WitnessExecStays == ~(At("a", "exec") \in D_(c) /\ S_(c) = Units(D_(c)) /\ S_(c) # {})
-WitnessThreeFiles == ~(Cardinality({x.f : x \in Shelved(D_(c), S_(c))}) = 3)
+WitnessManyFiles == ~(Cardinality({x.f : x \in Shelved(D_(c), S_(c))}) = (IF MaxEdits >= 3 THEN 3 ELSE 2))
 Export == JsonSerialize(IOEnv.VF_OUT, SetToSeq({[c |-> x, spec |-> SpecOut(D_(x), S_(x))] : x \in CaseSet}))
 ASSUME IF "VF_OUT" \in DOMAIN IOEnv THEN Export ELSE TRUE
 =============================================================================
